@@ -433,7 +433,7 @@ def run_c16(pid, tier, t0):
         metrics_recs.append(mrec)
         lines, _, _ = gather(topo, [], hist, extra_events=extra)
         lines += obs
-        if validate(v, pid, wd, tag, lines, obs):
+        if validate(v, pid, wd, tag, lines, obs, cfg="TraceLifeLite.cfg"):      # replies are C06's subject; without them the search is linear
             ntr += 1
         samples.append({"history_size": hist, "connections": n, "api": [r for _, r in api_results][:2], "record": obs[0] if obs else None})
     # growth beyond C16: Prometheus counters as a refinement of the records (MetricsObs.tla); reported, never a violation
